@@ -20,7 +20,7 @@ PROPERTIES = ["C17"]
 MANIFEST = {
     "C17": dict(level="exploration",
                 technique="TLA+ spec (Keys.tla) as exhaustive structured case generator + law oracle (peer-id text codec modelled exactly); cases run on the real x509 / fingerprinter / PeerID functions and on running swarms; observations evaluated by TLC (KeysTrace.tla)",
-                text="TLC enumerates keys (OID arc boundary classes, OIDs long enough to cross the 127/255-byte length forms, x body lengths {0,1,31,32,33,64,125..129,254..257,1312,65534..65536}), key pairs, non-canonical DER forms, peer-id text classes (wrong length, foreign characters, CR/LF/space, '=' padding, non-zero trailing bits) and id pairs, checks RoundTrip / CanonicalDER (definite minimal lengths; on the code: byte equality with encoding/asn1, a hand-written encoder and crypto/x509 reference encodings) / EqualIffEncodingEqual / NonCanonical / RejectInvalid / OrderPreserving on the modelled codecs, and evaluates the same laws on what the real functions returned for seeded instances of every case; FingerprintIsFunctionOfKey is checked per swarm kind over direct calls and over ids observed at LocalAddrs / Src / Dst / LookupPublicKey / whitelist sites of running swarms.",
+                text="TLC enumerates keys (OID arc boundary classes, OIDs long enough to cross the 127/255-byte length forms, x body lengths {0,1,31,32,33,64,125..129,254..257,1312,65534..65536}), key pairs, non-canonical DER forms, parse-first wire sets (per key: parameters absent / NULL / OID / junk, unused bits, long-form and indefinite lengths, trailing and truncated data, another body, another OID; standard RSA / ECDSA / Ed25519 SPKIs from crypto/x509 with their parameters kept, stripped, replaced), peer-id text classes (wrong length, foreign characters, CR/LF/space, '=' padding, non-zero trailing bits) and id pairs, checks RoundTrip / CanonicalDER (definite minimal lengths; on the code: byte equality with encoding/asn1, a hand-written encoder and crypto/x509 reference encodings) / EqualIffEncodingEqual / WireCanonical (over accepted wire forms: marshal idempotent, EqualPublicKeys => same encoding and same id under both fingerprinters, same encoding => equal, Equal is an equivalence) / NonCanonical / RejectInvalid / OrderPreserving on the modelled codecs, and evaluates the same laws on what the real functions returned for seeded instances of every case; FingerprintIsFunctionOfKey is checked per swarm kind over direct calls and over ids observed at LocalAddrs / Src / Dst / LookupPublicKey / whitelist sites of running swarms.",
                 note="Exploration: exhaustive over the class space, sampled (seeded) at byte level. The DER side is modelled at structure level. Integer tuples that are not object identifiers (fewer than two arcs, first arc > 2, negative arcs) are outside the quantifier. p2pkeswarm (SHAKE-256) and quicswarm (SHA3-256) fingerprints differ by construction: reported as an observation, not a violation.",
                 ref="5 (C17), 3.11, 9"),
 }
@@ -45,6 +45,9 @@ def generate(tier, stats):
         r2 = tlcretry.tlc("Keys", "Keys_orig.cfg", workers=2, timeout=300, label="keys-orig", short=True)
         if "RejectInvalidLaw" not in r2.violated:
             raise core.Inconclusive("self-test: Keys_orig.cfg (pinned UnmarshalText) does not violate RejectInvalidLaw")
+        r4 = tlcretry.tlc("Keys", "Keys_params.cfg", workers=2, timeout=300, label="keys-params", short=True)
+        if "WireCanonicalLaw" not in r4.violated:
+            raise core.Inconclusive("self-test: Keys_params.cfg (parsed parameters written back by Marshal) does not violate WireCanonicalLaw")
         r3 = tlcretry.tlc("Keys", "Keys_fastpath.cfg", workers=2, timeout=300, label="keys-fastpath", short=True)
         if not ({"RoundTripLaw", "CanonicalDERLaw"} & set(r3.violated)):
             raise core.Inconclusive("self-test: Keys_fastpath.cfg (outer length assuming a 2-byte BIT STRING header) violates neither RoundTripLaw nor CanonicalDERLaw")
@@ -73,6 +76,24 @@ def length_threshold(op, events, viol_lines):
     return m
 
 
+def wire_culprit(op, e):
+    """The first pair (or single) of accepted wire forms that falsifies the law."""
+    A = [i for i, a in enumerate(e["acc"]) if a]
+    f = e["forms"]
+    if op == "MarshalIdempotent":
+        return next((f[i] for i in A if not e["idem"][i]), "?")
+    for i in A:
+        for j in A:
+            eq = e["eq"][i][j]
+            bad = ((op == "EqualImpliesSameEncoding" and eq and e["m"][i] != e["m"][j]) or
+                   (op == "EqualImpliesSameIdentity" and eq and (e["fpk"][i] != e["fpk"][j] or e["fpq"][i] != e["fpq"][j])) or
+                   (op == "SameEncodingImpliesEqual" and not eq and e["m"][i] == e["m"][j]) or
+                   (op == "EqualIsEquivalence" and (eq != e["eq"][j][i] or (i == j and not eq))))
+            if bad:
+                return "%s~%s" % (f[i], f[j])
+    return "?"
+
+
 def violation_key(op, e, thresholds=None):
     if op in KEYNAMES:
         return KEYNAMES[op]
@@ -85,6 +106,8 @@ def violation_key(op, e, thresholds=None):
         return "C17:%s:pair/%s" % (op, "~".join(x.split("/")[0] for x in cls.split("~")))
     if e["ev"] == "der":
         return "C17:%s:der/%s" % (op, cls.split("/")[0])
+    if e["ev"] == "wires":
+        return "C17:%s:wire/%s" % (op, wire_culprit(op, e))
     if e["ev"] == "fp":
         return "C17:%s:%s" % (op, e["kind"])
     if e["ev"] == "idtext":
@@ -142,6 +165,14 @@ def run_pipeline(tier, cases=None, harvest=True, seed=None, variants=None):
         events.append(dict(fp[-1], id="00" * 32, site="selftest"))
         selftest[len(events)] = "FingerprintIsFunctionOfKey"
     corrupt("RoundTrip", lambda e: e["ev"] == "key" and e["valid"] and e["fits"] and e["eqkey"], dict(eqkey=False))
+    wsrc = next((e for e in events if e["ev"] == "wires" and sum(e["acc"]) >= 2 and
+                 any(e["eq"][i][j] for i in range(len(e["acc"])) for j in range(len(e["acc"])) if i != j)), None)
+    if wsrc is not None:
+        i, j = next((i, j) for i in range(len(wsrc["acc"])) for j in range(len(wsrc["acc"])) if i != j and wsrc["eq"][i][j])
+        bad = json.loads(json.dumps(wsrc))
+        bad["m"][j] = "00"
+        events.append(bad)
+        selftest[len(events)] = "EqualImpliesSameEncoding"
     corrupt("CanonicalDER", lambda e: e["ev"] == "key" and e.get("refok") and e.get("canon"), dict(canon=False))
     corrupt("EqualIffEncodingEqual", lambda e: e["ev"] == "pair" and e["valid"] and e["equal"], dict(enceq=False))
     corrupt("RejectInvalid", lambda e: e["ev"] == "idtext" and not e["err"], dict(back=[45] * 43, tb=[48] * 43))
@@ -200,6 +231,10 @@ def run_pipeline(tier, cases=None, harvest=True, seed=None, variants=None):
                 distinct.add(("der", e["der"]))
         elif e["ev"] == "pair":
             distinct.add(("pair", e["class"], e["var"]))
+        elif e["ev"] == "wires":
+            for i, a in enumerate(e["acc"]):
+                if a and e["forms"][i] not in ("canonical", "std"):
+                    distinct.add(("wire", e["class"], e["var"], e["forms"][i]))
         elif e["ev"] == "idtext":
             if "/valid/" not in e["class"]:
                 distinct.add(("t", tuple(e["tb"])))
